@@ -37,7 +37,7 @@ EXPLANATION = (
     'and location arguments; cli.main converts InvalidSpec to `path:line: error: msg` and '
     'exit 1. Frontend asserts about internal invariants are listed, not judged.'
     ' RD (decision drift, stonelint.conddrift): the tests of the functions this property is anchored in (stonelint.ownership) are compared with reference/conditions.json; a relation, polarity or connective changed over the same operands, or an operand purely added or dropped, is a violation; re-spellings and new or removed tests are not claimed.'
-    " RE (expression drift, stonelint.exprdrift): the same functions' attribute names, variable reads, simple statements, calls and arithmetic/slice literals are compared with reference/expressions.json; a substituted attribute or variable, a dropped call or assignment, swapped arguments or a changed literal is a violation; any other edit is not claimed.")
+    " RE (expression drift, stonelint.exprdrift): the same functions' attribute names, variable reads, simple statements, calls and arithmetic/slice literals are compared with reference/expressions.json; a substituted attribute or variable, a dropped call or assignment, swapped arguments or a changed literal is a violation; any other edit is not claimed. RC (call-condition drift, stonelint.conddrift.run_calls): for every call of a repository or imported-library function in those functions, the path conditions of its occurrences are compared with reference/conditions.json by truth table; an assignment under which the function used to make the call and now completes without it is a violation (tests on memo tables, emptiness of the iterated collection and earlier refusals excepted; re-spelled conditions are not claimed). MK (memo-key rule, stonelint.memo): a memo table or done-set the reference tree does not have must be keyed by every access path the skipped code reads, injectively and type-aware.")
 ASSUMPTIONS = [
     'the kinds of values stored in an Environment are the six store sites of ir_generator plus '
     'the built-in type classes of default_env (re-checked every run; a new store kind is an '
@@ -891,6 +891,43 @@ def p_error_siblings(pm, ctx):
                       'unexpected end of input (sibling %s handles it): AssertionError escapes'
                       % (f.short, sibs[1].short if f is sibs[0] else sibs[0].short),
                   key='C03-R4|%s|none-token' % f.qualname)
+
+    # the value of the offending token is whatever the lexer produced for it (text, int, float,
+    # bool, the null sentinel object): the error reporters may only apply operations every value
+    # supports, unless a positive isinstance(<value>, str) test dominates the use
+    TOTAL_CALLS = ('repr', 'str', 'format', 'type', 'isinstance', 'id', 'hash', 'bool')
+    for f in sibs:
+        tok = f.params[1]
+        pi = path_info(f.node)
+        n_uses = 0
+        for n in own_nodes(f.node):
+            if not (isinstance(n, ast.Attribute) and n.attr == 'value' and
+                    isinstance(n.value, ast.Name) and n.value.id == tok):
+                continue
+            n_uses += 1
+            par = getattr(n, '_parent', None)
+            partial = (isinstance(par, ast.Attribute) and par.value is n) or \
+                (isinstance(par, ast.Subscript) and par.value is n) or \
+                (isinstance(par, ast.BinOp) and not (isinstance(par.op, ast.Mod) and
+                                                    par.right is n)) or \
+                isinstance(par, ast.UnaryOp) and not isinstance(par.op, ast.Not) or \
+                (isinstance(par, ast.Call) and n in par.args and isinstance(par.func, ast.Name) and
+                 par.func.id in ('len', 'int', 'float', 'ord', 'iter', 'sorted', 'list'))
+            if not partial:
+                continue
+            is_str = any(pol and isinstance(e, ast.Call) and call_name(e) == 'isinstance' and
+                         unparse(e.args[0]) == unparse(n) and
+                         unparse(e.args[1]).replace('six.', '') in ('str', 'text_type',
+                                                                    'string_types')
+                         for e, pol in pi.at(n))
+            ctx.check('C03-R4', is_str, '%s applies only total operations to the token value'
+                      % f.short, '%s:%d' % (f.module.relpath, n.lineno),
+                      msg='%s applies %s to the value of the unexpected token, which is a str only '
+                          'for some token kinds (numbers, booleans and the null sentinel are '
+                          'objects of other types): AttributeError/TypeError escapes while the '
+                          'syntax error is being reported' % (f.short, unparse(par)[:60]),
+                      key='C03-R4|%s|token-value' % f.qualname)
+        ctx.ok('C03-R4', '%s: %d uses of the token value inspected' % (f.short, n_uses), f.loc)
 
 
 def parse_result_guard(pm, ctx):
